@@ -38,6 +38,30 @@ pub enum Op {
 	FinishBlock,
 	/// push_serialized values i..j pre-encoded with to_datum
 	Push(usize, usize),
+	/// serialize a copy of value i whose last leaf does not fit the schema: the call must fail and leave no trace
+	/// in the file (the value itself is written by a later op)
+	SerializeUnpresentable(usize),
+}
+
+/// deterministic: the last leaf of the value becomes something its schema node cannot take
+fn spoil_last_leaf(v: &mut Val) {
+	match v {
+		Val::Record(xs) | Val::Array(xs) if !xs.is_empty() => {
+			let k = xs.len() - 1;
+			spoil_last_leaf(&mut xs[k])
+		}
+		Val::Map(es) if !es.is_empty() => {
+			let k = es.len() - 1;
+			spoil_last_leaf(&mut es[k].1)
+		}
+		Val::Union(_, x) => spoil_last_leaf(x),
+		other => {
+			*other = match other {
+				Val::Str(_) => Val::Duration(1, 2, 3),
+				_ => Val::Str("unpresentable here".into()),
+			}
+		}
+	}
 }
 
 /// random op pattern covering values 0..n in order
@@ -62,6 +86,9 @@ pub fn op_pattern(rng: &mut Rng, n: usize) -> Vec<Op> {
 				let j = (i + 1 + rng.below(5)).min(n);
 				ops.push(Op::Push(i, j));
 				i = j;
+			}
+			6 if rng.coin() => {
+				ops.push(Op::SerializeUnpresentable(i));
 			}
 			_ => {
 				ops.push(Op::FinishBlock);
@@ -133,6 +160,17 @@ pub fn write_file(schema: &Schema, rs: &RSchema, vals: &[Val], ops: &[Op], wc: &
 					.serialize_all(vals[*i..*j].iter().map(|v| Present::new(rs, v, pres)))
 					.map_err(|e| format!("serialize_all: {e}"))?,
 				Op::FinishBlock => w.finish_block().map_err(|e| format!("finish_block: {e}"))?,
+				Op::SerializeUnpresentable(i) => {
+					let mut bad = vals[*i].clone();
+					spoil_last_leaf(&mut bad);
+					// only if a scratch serializer refuses it too (a string where bytes are expected is taken, for one)
+					let mut scratch = SerializerConfig::new(schema);
+					if serde_avro_fast::to_datum_vec(&Present::new(rs, &bad, pres), &mut scratch).is_err() {
+						if w.serialize(Present::new(rs, &bad, pres)).is_ok() {
+							return Err("serialize: a value that a fresh serializer refuses was accepted by the writer".into());
+						}
+					}
+				}
 				Op::Push(i, j) => {
 					let mut c2 = SerializerConfig::new(schema);
 					let mut buf = Vec::new();
